@@ -1,7 +1,7 @@
 //! `sync::worker` scenarios: submit / acquire / finish counting and the "no more senders" wake.
 
 use crate::{
-    exec::{block_on, spin_limit, spin_until, spin_yield, Task},
+    exec::{await_published, block_on, spin_limit, spin_until, spin_yield, Ack, Task},
     monitor::{Ev, ThreadLog, Verdict},
     Body, Env, Runner, Scenario,
 };
@@ -17,6 +17,8 @@ struct Cfg {
     gate_on_parked: bool,
     /// receiver finishes work in chunks of at most this many
     finish_chunk: usize,
+    /// after every submit the sender waits (bounded) until the receiver has finished the work
+    ack: bool,
 }
 
 fn sender_body(
@@ -46,6 +48,19 @@ fn sender_body(
         total += count;
         me.publish(total);
         log.ev(Ev::Push(idx as u32, count as u32));
+        if cfg.ack {
+            match await_published(rx_task, total) {
+                Ack::Progressed => log.add("acks", 1),
+                Ack::LostWakeup => {
+                    log.fact("lost_wakeup", total);
+                    break;
+                }
+                Ack::Slow => {
+                    log.fact("ack_slow", total);
+                    break;
+                }
+            }
+        }
     }
     if cfg.gate_on_parked {
         let ok = spin_until(spin_limit(), || rx_task.is_parked() || rx_task.is_done());
@@ -152,6 +167,19 @@ fn run_cfg(name: &'static str, env: &Env, runner: &mut Runner, cfg: Cfg) {
             ),
         );
     }
+    for l in &logs[..cfg.senders] {
+        if let Some(t) = l.facts.get("lost_wakeup") {
+            v.fail(
+                "lost-wakeup",
+                format!("{t} jobs were submitted and the receiver stayed parked with no wake-up latched beyond the bound (finished so far: {})",
+                    tasks[rx_idx].published.load(std::sync::atomic::Ordering::Relaxed)),
+            );
+        }
+        if let Some(t) = l.facts.get("ack_slow") {
+            runner.summary.inconclusive.push(format!(
+                "{name} seed={} iter={}: receiver did not finish {t} submitted jobs within the bound but was runnable", env.seed, env.iter));
+        }
+    }
     if rx.facts.get("zero_acquire").is_some() {
         v.fail(
             "worker-empty-acquire",
@@ -179,6 +207,7 @@ fn single(name: &'static str, env: &Env, r: &mut Runner) {
             rounds: g.range(2, env.scale(4, 12)),
             gate_on_parked: false,
             finish_chunk: g.range(1, 3) as usize,
+            ack: false,
         },
     )
 }
@@ -194,6 +223,7 @@ fn rx_parked(name: &'static str, env: &Env, r: &mut Runner) {
             rounds: g.range(1, 3),
             gate_on_parked: true,
             finish_chunk: 8,
+            ack: false,
         },
     )
 }
@@ -210,6 +240,25 @@ fn no_work(name: &'static str, env: &Env, r: &mut Runner) {
             rounds: 0,
             gate_on_parked: g,
             finish_chunk: 1,
+            ack: false,
+        },
+    )
+}
+
+fn ack(name: &'static str, env: &Env, r: &mut Runner) {
+    // every submission must be finished by the receiver before the sender goes on: neither a
+    // later submit nor the final drop can rescue a lost wake-up
+    let mut g = env.rng();
+    run_cfg(
+        name,
+        env,
+        r,
+        Cfg {
+            senders: 1,
+            rounds: g.range(2, env.scale(4, 10)),
+            gate_on_parked: false,
+            finish_chunk: g.range(1, 3) as usize,
+            ack: true,
         },
     )
 }
@@ -225,6 +274,7 @@ fn cloned(name: &'static str, env: &Env, r: &mut Runner) {
             rounds: g.range(2, env.scale(3, 8)),
             gate_on_parked: false,
             finish_chunk: 2,
+            ack: false,
         },
     )
 }
@@ -233,6 +283,7 @@ pub fn scenarios() -> Vec<Scenario> {
     vec![
         Scenario { name: "worker_single", about: "one sender submits a few batches and drops; receiver acquires/finishes until None", run: single },
         Scenario { name: "worker_rx_parked", about: "every submit and the final drop happen while the receiver is parked", run: rx_parked },
+        Scenario { name: "worker_ack", about: "each submit must be finished by the receiver before the next one (strict no-lost-wake-up)", run: ack },
         Scenario { name: "worker_no_work", about: "sender dropped without submitting", run: no_work },
         Scenario { name: "worker_clone", about: "two sender handles (clone) on two threads", run: cloned },
     ]
